@@ -17,8 +17,8 @@ from lib import vlib
 from lib.vlib import cq_list, cq_bool
 
 SETUP_BUILDS = [{"name": "c07"}, {"name": "c07", "race": True}]
-COQ_TARGETS = ["Slots/Properties_C07.v", "Slots/Corr.v", "Slots/CorrMM.v"]
-HEADER = ("From Coq Require Import List ZArith NArith Bool.\nFrom V Require Import Common.Bytes Slots.StopFns Slots.Model Slots.Corr Slots.ModelMM Slots.CorrMM.\n"
+COQ_TARGETS = ["Slots/Properties_C07.v", "Slots/Corr.v", "Slots/CorrMM.v", "Slots/Enc.v"]
+HEADER = ("From Coq Require Import List ZArith NArith Bool.\nFrom V Require Import Common.Bytes Slots.StopFns Slots.Model Slots.Corr Slots.ModelMM Slots.CorrMM Slots.Enc.\n"
           "Import ListNotations.\nOpen Scope Z_scope.\n")
 
 
@@ -154,14 +154,14 @@ def expand_mm(prompt):
     out = []
     skip = 0
     for t in prompt:
-        if skip > 0 and t == PLACEHOLDER:
+        if skip > 0 and t == PLACEHOLDER:      # already written out (a resolved "cont" prompt lists the followers)
             skip -= 1
-            out.append(t)
             continue
         skip = 0
         out.append(t)
         if t >= 1000:
-            out += [PLACEHOLDER] * ((t - 1000) // 100)
+            skip = (t - 1000) // 100
+            out += [PLACEHOLDER] * skip
     return out
 
 
@@ -195,6 +195,53 @@ def gen_mm_case(rng):
     return {"op": "hist", "cfg": cfg, "ops": ops, "drain": 40, "fresh": True, "freshsteps": 60, "klass": "multimodal"}
 
 
+def gen_enc_case(rng):
+    """a cross-attention model (mllama-style): WrapperCache(EncoderCache, Causal), one slot.  An image input sits at a
+    sequence position that differs from its index in the batch (prefix longer than a batch, or cached prefix then image);
+    then the slot is reused with prefixes ending before / at / after the image, and generations overflow the context."""
+    numctx = rng.choice([6, 8, 10, 12, 16])
+    vocab = rng.choice([3, 4, 6])
+    batch = rng.choice([1, 2, 2, 3, 4])
+    cfg = {"parallel": 1, "kv": numctx, "batch": batch, "vocab": vocab, "eos": -1, "multi": rng.random() < 0.5, "shift": rng.random() < 0.85,
+           "partial": rng.random() < 0.9, "resume": True, "pad": 1, "maskpad": 1, "encoder": True}
+
+    def image():
+        return 1000 + (100 * rng.randint(1, 2) if rng.random() < 0.15 else 0) + rng.randrange(4)
+    img = image()
+    a = rng.randint(0, min(numctx - 3, batch + 3))
+    pre = rnd_toks(rng, vocab, a)
+    suf = rnd_toks(rng, vocab, rng.randint(0, 3))
+    full = pre + [img] + suf
+    two = rng.random() < 0.12
+    if two:
+        full = full + [image()] + rnd_toks(rng, vocab, rng.randint(0, 2))
+    ops = []
+
+    def run(n=None):
+        ops.extend([{"t": "step"}] * (n if n is not None else numctx + 6))
+    if a > 0 and rng.random() < 0.5:          # the prefix is cached first: the image is then at batch index < position
+        ops.append({"t": "submit", "prompt": pre[:rng.randint(1, a)] if rng.random() < 0.7 else pre, "npred": 1, "keep": 0})
+        run()
+    ops.append({"t": "submit", "prompt": full, "npred": rng.choice([1, 1, 2, 3]), "keep": rng.choice([0, 0, 1, a, a + 1, -1])})
+    run()
+    for _ in range(rng.randint(1, 4)):
+        r = rng.random()
+        keep = rng.choice([0, 0, 1, a, a + 1, a + 2, -1])
+        if r < 0.55:
+            cut = rng.choice([rng.randint(0, len(full)), a, a, a + 1, max(0, a - 1)])
+            tail = rnd_toks(rng, vocab, rng.randint(1, 3))
+            if rng.random() < 0.15:
+                tail = [image()] + tail
+            ops.append({"t": "submit", "prompt": full[:cut] + tail, "npred": rng.choice([1, 2, 3, numctx + 2]), "keep": keep})
+        elif r < 0.8:                          # continue the conversation: generations overflow the context, context shifts
+            ops.append({"t": "submit", "cont": max(0, sum(1 for x in ops if x["t"] == "submit") - 1), "extra": rnd_toks(rng, vocab, rng.randint(1, 2)),
+                        "npred": rng.choice([2, numctx, numctx + 3]), "keep": keep})
+        else:
+            ops.append({"t": "submit", "prompt": full, "npred": rng.choice([1, 2, numctx]), "keep": keep})
+        run(rng.choice([None, None, 2]))
+    return {"op": "hist", "cfg": cfg, "ops": ops, "drain": 40, "fresh": True, "freshsteps": 60, "klass": "encoder"}
+
+
 CORPUS = [
     # fork a prefix into the second slot, overflow the fork: the shift fails on shared cells (the C07 defect)
     {"op": "hist", "cfg": {"parallel": 2, "kv": 16, "batch": 8, "vocab": 6, "eos": -1, "multi": True, "shift": True},
@@ -225,6 +272,8 @@ def gen_cases(ctx):
         cases.append(gen_swa_case(rng, rng.choice(["swa-repeat", "swa-repeat", "swa-mixed"])))
     for _ in range(70 if ctx.quick() else 1200):
         cases.append(gen_mm_case(rng))
+    for _ in range(60 if ctx.quick() else 1200):
+        cases.append(gen_enc_case(rng))
     return cases
 
 
@@ -330,6 +379,16 @@ def monitor_case(c, o):
                 if not okv:
                     out.append(({"class": "foreign-history"}, "operation %d: batch entry %d (seq %d, pos %d, token %d) attended to [kpos,tok] %s; recorded inputs %s"
                                 % (k, j, s, p, f["toks"][j], vis, rec)))
+            # encoder mode: the cross-attention input is the most recent image of the effective input, or nothing
+            if c["cfg"].get("encoder") and f["toks"]:
+                rec = st["slots"][0]["inputs"]
+                imgs = [t for t in rec[:max(f["pos"]) + 1] if t >= 1000]
+                want_x = imgs[-1] if imgs else -1
+                if f.get("cross", -1) != want_x:
+                    how = "lost" if f.get("cross", -1) == -1 else ("stale" if want_x == -1 else "wrong-image")
+                    out.append(({"class": "cross-attention-mismatch", "how": how},
+                                "operation %d: the batch (positions %s) cross-attended to image %s but the most recent image of the recorded inputs %s is %s"
+                                % (k, f["pos"], f.get("cross", -1), rec, want_x)))
             # an unbreakable group (a multimodal input + its SameBatch followers) must not be split across batches
             need = {}
             for j in range(len(f["toks"])):
@@ -446,6 +505,9 @@ def attach_ops(c, o):
 def render(c, o):
     attach_ops(c, o)
     trace = o["trace"]       # a step on which StartForward found no room is predicted by the model too (RCacheFull)
+    if c["cfg"].get("encoder"):
+        tr = cq_list(["(%s, %s, %s)" % (render_op(c, e), render_obs(e), "(Some (%d))" % e["enc"][0] if e.get("enc") else "None") for e in trace], "(op * obs * option Z)")
+        return "chk_trace_enc %d %s %s" % (c["cfg"]["vocab"], render_cfg(c["cfg"], o["numctx"], o.get("ncells", -1)), tr)
     tr = cq_list(["(%s, %s)" % (render_op(c, e), render_obs(e)) for e in trace], "(op * obs)")
     fn = "chk_trace_mm" if c.get("klass") == "multimodal" or any(t >= 1000 for e in trace if e["t"] == "submit" for t in (e["prompt"] or [])) else "chk_trace"
     return "%s %d %s %d%%nat %s" % (fn, c["cfg"]["vocab"], render_cfg(c["cfg"], o["numctx"], o.get("ncells", -1)), c["cfg"]["parallel"], tr)
@@ -454,6 +516,8 @@ def render(c, o):
 def model_term(c, o):
     attach_ops(c, o)
     ops = cq_list([render_op(c, e) for e in o["trace"]], "op")
+    if c["cfg"].get("encoder"):
+        return "model_trace_enc %d %s %s" % (c["cfg"]["vocab"], render_cfg(c["cfg"], o["numctx"], o.get("ncells", -1)), ops)
     fn = "model_trace_mm" if c.get("klass") == "multimodal" else "model_trace"
     return "%s %d %s %d%%nat %s" % (fn, c["cfg"]["vocab"], render_cfg(c["cfg"], o["numctx"], o.get("ncells", -1)), c["cfg"]["parallel"], ops)
 
@@ -720,6 +784,12 @@ def features(c, o):
     emptied = any(e["t"] == "step" and any(s["inuse"] and not s["inputs"] for s in e["state"]["slots"]) and
                   any(q is not None and len(q["inputs"]) > 1 for q in e["state"]["seqs"]) for e in tr)
     sig = {"after_failed_shift": emptied, "forked": forked, "can_shift": c["cfg"].get("shift", True)}
+    if c["cfg"].get("encoder"):
+        viol = monitor_case(c, o)
+        hows = set(s.get("how") for s, _ in viol if s["class"] == "cross-attention-mismatch")
+        sig.update({"encoder": True,
+                    "multi_image": any(sum(1 for t in sl["inputs"] if t >= 1000) >= 2 for e in tr for sl in e["state"]["slots"]),
+                    "cross_lost_only": hows == {"lost"}})
     win = c["cfg"].get("window", 0)
     if win > 0:
         nctx = o.get("numctx", 0)
@@ -739,15 +809,17 @@ def run(ctx):
     ctx.rule = ("cases: histories of 4-40 operations (submit a completion request / run one processBatch) over 1-3 slots, context 1-10, batch 1-8, "
                 "keep -1..ctx+3, both slot policies, caches with/without shift function, partial erase, resume, sliding window 2..8, cache/mask paddings; prompts share "
                 "prefixes, repeat exactly, continue an earlier conversation, diverge, exceed the context; generations overflow the context; stop sequences; "
+                "cross-attention models (WrapperCache(EncoderCache, Causal), one slot): an image behind a prefix longer than a batch or behind a cached prefix, "
+                "then slot reuse with prefixes ending before / at / after the image and context shifts; "
                 "non-trivial = at least one Forward happened and a slot was reused, forked or shifted; distinct = by canonical JSON of the case")
     ctx.trusted = ["Coq 8.16.1 kernel + vm_compute", "hand-written model coq/Slots/Model.v tied to the code by this differential run only",
                    "harness/cmd/c07 (in-memory ml backend, scripted model, driver) and the add-only overlay exports c07.go in runner/ollamarunner, model, kvcache; "
                    "VerifSubmit copies the 12-line slot-assignment block of (*Server).completion",
                    "python generator and monitor (props/c07.py)"]
     ctx.assumptions = ["theorems: context size per slot >= 1 (NewInputCache refuses less); every other parameter, the network F and the history are universally quantified",
-                       "text-only inputs (no multimodal SameBatch groups)", "theorems over histories: no sliding window (window cfg = None); sliding-window caches are modelled, compared and monitored but not proved",
+                       "theorems: text-only inputs; multimodal SameBatch groups (Slots/ModelMM.v) and the encoder cache of cross-attention models (Slots/Enc.v) are modelled, compared on every run and monitored, not proved", "theorems over histories: no sliding window (window cfg = None); sliding-window caches are modelled, compared and monitored but not proved",
                        "requests are not cancelled mid-generation", "the network is any function of the history the cache exposes (harness: a hash; theorems: a Section variable)"]
-    ctx.proof_stage(["Slots"], "Slots/Properties_C07.v", extra_targets=["Slots/Corr.v", "Slots/CorrMM.v"])
+    ctx.proof_stage(["Slots"], "Slots/Properties_C07.v", extra_targets=["Slots/Corr.v", "Slots/CorrMM.v", "Slots/Enc.v"])
     if not ctx.quick():
         ctx.coqchk(["V.Slots.Properties_C07"])
     binp = ctx.go_build("c07")
@@ -794,6 +866,15 @@ def run(ctx):
                                                  len(e["state"]["slots"][e["state"]["seqs"][e["res"]["idx"]]["slot"]]["inputs"]) == 0
                                                  for e, pe in zip(tr, [None] + tr)):
             ctx.count("swa-hist-with-resume-refused")
+        if c["cfg"].get("encoder"):
+            if any(t >= 1000 and j != f["pos"][j] for e in tr for f in e["fwd"] for j, t in enumerate(f["toks"])):
+                ctx.count("enc-hist-image-batch-index-differs-from-position")
+            for e, pe in zip(tr[1:], tr):
+                if e["t"] == "submit" and e["res"]["kind"] == "" and pe.get("enc"):
+                    ctx.count("enc-reuse-image-kept" if e.get("enc") else "enc-reuse-image-dropped")
+                if e["t"] == "step" and pe.get("enc") and shifted and any(len(b["inputs"]) < len(a["inputs"]) and b["inuse"]
+                                                                            for a, b in zip(pe["state"]["slots"], e["state"]["slots"])):
+                    ctx.count("enc-shift-image-moved" if e.get("enc") else "enc-shift-image-dropped")
         nstop = sum(1 for e in tr for rv in e["resp"].values() if rv.get("reason") == "stop")
         if nstop:
             ctx.count("requests-ended-by-stop-or-eos", nstop)
